@@ -364,6 +364,14 @@ func drawC04(t *rapid.T) polCase {
 		if arch == hostArchName() {
 			c.Prev = "unset" // the architecture is left to the library, as through the public API
 		}
+	case 5:
+		// no groups at all: refused today; whatever a version accepts, the guards are part of it ("all accepted policies")
+		if rapid.Bool().Draw(t, "noGroups") {
+			c.Policy.Groups = nil
+			if arch == hostArchName() && rapid.Bool().Draw(t, "noGroupsUnset") {
+				c.Prev = "unset"
+			}
+		}
 	}
 	return c
 }
